@@ -46,6 +46,46 @@ def merge_block(f):
     return None, None
 
 
+def chain_filters(f):
+    """Tests inside the loop over the per-chain adapter states that read the chain's own state and can keep a
+    chain out of the merge: [(loop, test, harmless?)].  Harmless: true only for a chain without samples."""
+    out = []
+    for n in ast.walk(f.node):
+        if not isinstance(n, ast.For):
+            continue
+        it = n.iter.args[0] if isinstance(n.iter, ast.Call) and norm(n.iter.func) == "enumerate" and n.iter.args else n.iter
+        if "adapt_states" not in norm(it):
+            continue
+        tv = n.target.elts[-1] if isinstance(n.target, ast.Tuple) else n.target
+        if not isinstance(tv, ast.Name):
+            continue
+        for t in ast.walk(n):
+            test = t.test if isinstance(t, (ast.If, ast.IfExp)) else None
+            if test is None or not any(isinstance(x, ast.Name) and x.id == tv.id for x in ast.walk(test)):
+                continue
+
+            def ev(e, v):
+                if isinstance(e, ast.Subscript) and norm(e.value) == tv.id and isinstance(e.slice, ast.Constant) and e.slice.value == "iter":
+                    return v
+                if isinstance(e, ast.Constant) and isinstance(e.value, (int, float)):
+                    return e.value
+                if isinstance(e, ast.UnaryOp) and isinstance(e.op, ast.Not):
+                    return not ev(e.operand, v)
+                if isinstance(e, ast.Compare) and len(e.ops) == 1:
+                    a, b = ev(e.left, v), ev(e.comparators[0], v)
+                    tb = {ast.Lt: a < b, ast.LtE: a <= b, ast.Gt: a > b, ast.GtE: a >= b, ast.Eq: a == b, ast.NotEq: a != b}
+                    if type(e.ops[0]) in tb:
+                        return tb[type(e.ops[0])]
+                raise ValueError
+
+            try:
+                harmless = bool(ev(test, 0)) and not any(bool(ev(test, v)) for v in (1, 2, 3, 50))
+            except (ValueError, TypeError):
+                harmless = False
+            out.append((n, test, harmless))
+    return out
+
+
 def rule_r1(rep, program: Program):
     r = rep.rule("R1", "online update blocks equal the documented recursions as exact polynomial identities (symbolic execution)", floor=14)
     # ------------------------------------------------------------ dual averaging
@@ -89,6 +129,12 @@ def rule_r1(rep, program: Program):
         _check(r, got is not None and got.equals(want), f"{f.qualname}:{m2}", f"the running sum of squared deviations is {got!r}; Welford: S + (x - mean_old) * (x - mean_new)", f.node, f.file, quantity=f"{cls}.{m2}", value=repr(got))
         # ---------------------------------------------------- pairwise merge
         g = program.method(cls, "finalize")
+        for lp, test, harmless in chain_filters(g):
+            r.inst({"class": cls, "test on a chain's own state inside the merge loop": norm(test), "true only for an empty chain": harmless})
+            if not harmless:
+                r.violate(PROP, f"{cls}.finalize:chain-filter:{norm(test)[:40]}", f"the multi-chain merge decides on `{norm(test)}` whether a chain's statistics take part: chains with samples are left out of the pooled mean / sum of squares and of n, so the estimate depends on how the positions were split among chains", node=test, file=g.file)
+        if any(not h for _l, _t, h in chain_filters(g)):
+            continue
         loop, ifn = merge_block(g)
         if ifn is None:
             raise AnalysisError(f"{cls}.finalize: multi-chain merge block not found")
